@@ -2,12 +2,13 @@ import Chewing.Proofs.TrieBufObs
 /-!
 Prefix (`FuzzyPartialPrefix`) lookup of a `TrieBuf` against the map it denotes.
 
-The code scans the *persisted* leaves whose key matches the query, appends the pending entries of
-*exactly* the query key and filters tombstones keyed by the *query*.  `fuzzyClass s q` (class
-`FuzzyOverTombstoneOrPending` of finding F36) says that this shortcut is visible: a pending entry or
-a tombstone sits under a matching key other than `q`, or a tombstone of `q` hides a persisted phrase
-of another matching key.  Outside the class (and outside `UpdatePersisted` for `q`) the answer is the
-map's.
+The code scans the *persisted* leaves whose key matches the query, drops the phrases that have a pending
+entry or a tombstone keyed by the *query*, and appends the pending entries of *exactly* the query key
+(`Trie::lookup_all_phrases` does not return the key a persisted phrase was found under).
+`fuzzyClass s q` (class `FuzzyOverTombstoneOrPending` of finding F36) says that this shortcut is
+visible: a pending entry or a tombstone sits under a matching key other than `q`, or a tombstone /
+a pending entry of `q` hides a persisted phrase of another matching key.  Outside the class the answer
+is the map's (no further exclusion since fix 8e6d504).
 -/
 namespace Chewing
 open MapSpec
@@ -20,7 +21,9 @@ def fuzzyClass (s : State) (q : Key) : Bool :=
   s.btree.any (fun e => e.1.1 != q && fuzzyMatch e.1.1 q) ||
   s.grave.any (fun g => g.1 != q && fuzzyMatch g.1 q) ||
   s.grave.any (fun g => g.1 == q &&
-    s.snap.any (fun l => l.1 != q && fuzzyMatch l.1 q && l.2.any (fun p => p.text == g.2)))
+    s.snap.any (fun l => l.1 != q && fuzzyMatch l.1 q && l.2.any (fun p => p.text == g.2))) ||
+  s.btree.any (fun e => e.1.1 == q &&
+    s.snap.any (fun l => l.1 != q && fuzzyMatch l.1 q && l.2.any (fun p => p.text == e.1.2)))
 
 theorem mem_lookupAll_fuzzy {t : List Leaf} {q : Key} {p : Phrase} :
     p ∈ Trie.lookupAll t q .fuzzyPartialPrefix ↔ ∃ l ∈ t, fuzzyMatch l.1 q = true ∧ p ∈ l.2 := by
@@ -33,12 +36,13 @@ theorem mem_lookupAll_fuzzy {t : List Leaf} {q : Key} {p : Phrase} :
 theorem fuzzyClass_false {s : State} {q : Key} (h : fuzzyClass s q = false) :
     (∀ e ∈ s.btree, fuzzyMatch e.1.1 q = true → e.1.1 = q) ∧
     (∀ g ∈ s.grave, fuzzyMatch g.1 q = true → g.1 = q) ∧
-    (∀ t, (q, t) ∈ s.grave → ∀ l ∈ s.snap, fuzzyMatch l.1 q = true → (∃ p ∈ l.2, p.text = t) → l.1 = q) := by
+    (∀ t, (q, t) ∈ s.grave → ∀ l ∈ s.snap, fuzzyMatch l.1 q = true → (∃ p ∈ l.2, p.text = t) → l.1 = q) ∧
+    (∀ t w, ((q, t), w) ∈ s.btree → ∀ l ∈ s.snap, fuzzyMatch l.1 q = true → (∃ p ∈ l.2, p.text = t) → l.1 = q) := by
   unfold fuzzyClass at h
   simp only [Bool.or_eq_false_iff, List.any_eq_false, Bool.and_eq_true, bne_iff_ne, ne_eq, not_and,
     Bool.not_eq_true, beq_iff_eq, List.any_eq_true, not_exists] at h
-  obtain ⟨⟨h1, h2⟩, h3⟩ := h
-  refine ⟨?_, ?_, ?_⟩
+  obtain ⟨⟨⟨h1, h2⟩, h3⟩, h4⟩ := h
+  refine ⟨?_, ?_, ?_, ?_⟩
   · intro e he hm
     by_cases c : e.1.1 = q
     · exact c
@@ -51,21 +55,25 @@ theorem fuzzyClass_false {s : State} {q : Key} (h : fuzzyClass s q = false) :
     by_cases c : l.1 = q
     · exact c
     · exact absurd et (h3 (q, t) ht rfl l hl ⟨c, hm⟩ p hp)
+  · rintro t w hw l hl hm ⟨p, hp, et⟩
+    by_cases c : l.1 = q
+    · exact c
+    · exact absurd et (h4 ((q, t), w) hw rfl l hl ⟨c, hm⟩ p hp)
 
 theorem mkPhrase_freq (t : Text) (v : Val) : (mkPhrase t v).freq = v.1 := rfl
 
-/-- **prefix lookup** outside the classes of F36 and F10 -/
+/-- **prefix lookup** outside the class of F36 -/
 theorem fuzzy_agrees {s : State} (hs : Inv s) (q : Key) (hq : fuzzyMatch q q = true)
-    (hc : fuzzyClass s q = false) (hn : ∀ t, shadowed s (q, t) = false) :
+    (hc : fuzzyClass s q = false) :
     IsFuzzyLookup fuzzyMatch (abs s) q (lookupAll s q .fuzzyPartialPrefix) := by
-  obtain ⟨c1, c2, c3⟩ := fuzzyClass_false hc
+  obtain ⟨c1, c2, c3, c4⟩ := fuzzyClass_false hc
   have hmemC : ∀ p, p ∈ entriesIterFor s q .fuzzyPartialPrefix ↔
-      (q, p.text) ∉ s.grave ∧ ((∃ l ∈ s.snap, fuzzyMatch l.1 q = true ∧ p ∈ l.2) ∨
+      (q, p.text) ∉ s.grave ∧ (((∃ l ∈ s.snap, fuzzyMatch l.1 q = true ∧ p ∈ l.2) ∧ ∀ w, ((q, p.text), w) ∉ s.btree) ∨
         ∃ v, ((q, p.text), v) ∈ s.btree ∧ p = mkPhrase p.text v) := by
     intro p
     unfold entriesIterFor
-    simp only [List.mem_filter, List.mem_append, mem_lookupAll_fuzzy, mem_btreeRange hs.range, List.contains_eq_mem,
-      Bool.not_eq_true', decide_eq_false_iff_not]
+    simp only [List.mem_filter, List.mem_append, mem_lookupAll_fuzzy, mem_btreeRange, List.contains_eq_mem,
+      Bool.not_eq_true', decide_eq_false_iff_not, btHas_false]
     constructor
     · rintro ⟨h1, h2⟩; exact ⟨h2, h1⟩
     · rintro ⟨h1, h2⟩; exact ⟨h2, h1⟩
@@ -73,7 +81,7 @@ theorem fuzzy_agrees {s : State} (hs : Inv s) (q : Key) (hq : fuzzyMatch q q = t
   refine ⟨dedup_texts_nodup _, ?_, ?_⟩
   · intro p hp
     obtain ⟨hg, h⟩ := (hmemC p).mp (mem_of_mem_dedup hp)
-    rcases h with ⟨l, hl, hm, hpl⟩ | ⟨v, hv, hpv⟩
+    rcases h with ⟨⟨l, hl, hm, hpl⟩, hnq⟩ | ⟨v, hv, hpv⟩
     · refine ⟨l.1, hm, (absOver_eq_some hs.snap hs.bt).mpr ⟨?_, Or.inr ⟨?_, l, hl, rfl, p, hpl, rfl, rfl⟩⟩⟩
       · intro hgl
         have := c2 _ hgl hm
@@ -83,16 +91,14 @@ theorem fuzzy_agrees {s : State} (hs : Inv s) (q : Key) (hq : fuzzyMatch q q = t
       · intro w hw
         have e := c1 _ hw hm
         simp only at e
-        have : shadowed s (q, p.text) = true :=
-          (shadowed_iff hs).mpr ⟨hg, ⟨w, by rw [← e]; exact hw⟩, l, hl, e, p, hpl, rfl⟩
-        rw [hn _] at this
-        exact absurd this (by simp)
+        rw [e] at hw
+        exact hnq w hw
     · refine ⟨q, hq, (absOver_eq_some hs.snap hs.bt).mpr ⟨hg, Or.inl ?_⟩⟩
       have : valOf p = v := by rw [hpv, valOf_mkPhrase]
       rw [this]; exact hv
   · intro key t v hm hv
     obtain ⟨hg, h⟩ := (absOver_eq_some hs.snap hs.bt).mp hv
-    rcases h with h | ⟨_, l, hl, el, p, hp, et, hpv⟩
+    rcases h with h | ⟨hn, l, hl, el, p, hp, et, hpv⟩
     · have e := c1 _ h hm
       simp only at e
       subst e
@@ -106,8 +112,14 @@ theorem fuzzy_agrees {s : State} (hs : Inv s) (q : Key) (hq : fuzzyMatch q q = t
         rw [el] at e
         rw [e] at hg
         exact hg hgq
+      have hbq : ∀ w, ((q, t), w) ∉ s.btree := by
+        intro w hw
+        have e := c4 t w hw l hl (by rw [el]; exact hm) ⟨p, hp, et⟩
+        rw [el] at e
+        rw [e] at hn
+        exact hn w hw
       have hC : p ∈ entriesIterFor s q .fuzzyPartialPrefix :=
-        (hmemC _).mpr ⟨by rw [et]; exact hgq, Or.inl ⟨l, hl, by rw [el]; exact hm, hp⟩⟩
+        (hmemC _).mpr ⟨by rw [et]; exact hgq, Or.inl ⟨⟨l, hl, by rw [el]; exact hm, hp⟩, by rw [et]; exact hbq⟩⟩
       obtain ⟨r, hr, er, fr⟩ := dedup_max hC
       refine ⟨r, hr, by rw [er, et], ?_⟩
       have : v.1 = p.freq := by rw [← hpv]; rfl
